@@ -12,7 +12,9 @@
 (*   Probe(x)    = one media message offered by input x (accepted, or a customize input that has  *)
 (*                 already been deleted)                                                          *)
 (*   StartPull / StopPull = CtrlStartRelayPull / CtrlStopRelayPull; PullOk / PullFail / PullEnd   *)
-(*                 = what the origin does to the attempt in flight; Advance = time passes         *)
+(*                 = what the origin does to the attempt in flight; Advance = time passes;        *)
+(*                 KickPull / KickStale = CtrlKickSession with the attached pull session's id /   *)
+(*                 with a pull session id that is not attached (an earlier attempt's)             *)
 (* Observations (act.obs): return code, notifications emitted, stream-hook callbacks, attempts.   *)
 EXTENDS Integers, Sequences, FiniteSets, TLC, Json
 
